@@ -22,6 +22,7 @@ import (
 	"google.golang.org/grpc/internal/envconfig"
 	"google.golang.org/grpc/internal/testutils/xds/e2e"
 	"google.golang.org/grpc/internal/xds/clusterspecifier"
+	"google.golang.org/grpc/internal/xds/httpfilter"
 	"google.golang.org/grpc/internal/xds/xdsclient/xdsresource/version"
 	"google.golang.org/protobuf/proto"
 	"google.golang.org/protobuf/types/known/anypb"
@@ -39,6 +40,11 @@ import (
 //	[4, idx, hasmatch, nq, path, case, hasfrac, fnum, fden, action, cs]   Route
 //	[5, kind]                          header matcher of the last route
 //	[6, w]                             weighted cluster of the last route
+//	[7, kind, optional, name]          HTTP filter of the HttpConnectionManager (kind 1 router, 2 fake
+//	                                   non-terminal client+server filter, 3 client-only, 4 server-only,
+//	                                   6 registered but config does not parse, else unregistered type)
+//	[11, named, server]                build a Listener (API listener with RDS / e2e.DefaultServerListener
+//	                                   with the filter list in every HCM) and pass it to unmarshalListenerResource
 //	[9, named]  / [10, named]          build the ClusterLoadAssignment / RouteConfiguration, marshal it,
 //	                                   and pass the bytes to unmarshalEndpointsResource /
 //	                                   unmarshalRouteConfigResource
@@ -80,6 +86,181 @@ type vXdsParsePend struct {
 	locs   []vXdsParseLoc
 	drops  [][2]uint32
 	routes []vXdsParseRoute
+	flts   [][3]int64
+}
+
+// fake HTTP filters registered for the duration of a case
+type vXdsParseFltCfg struct{ httpfilter.FilterConfig }
+type vXdsParseFlt struct{ kind int64 }
+
+func vXdsParseFltURL(kind int64) string {
+	return "type.googleapis.com/verif.XdsParseF" + strconv.FormatInt(kind, 10)
+}
+func (f vXdsParseFlt) TypeURLs() []string { return []string{vXdsParseFltURL(f.kind)} }
+func (f vXdsParseFlt) ParseFilterConfig(proto.Message, httpfilter.ParseOptions) (httpfilter.FilterConfig, error) {
+	if f.kind == 6 {
+		return nil, fmt.Errorf("verif: config does not parse")
+	}
+	return vXdsParseFltCfg{}, nil
+}
+func (f vXdsParseFlt) ParseFilterConfigOverride(m proto.Message, o httpfilter.ParseOptions) (httpfilter.FilterConfig, error) {
+	return f.ParseFilterConfig(m, o)
+}
+func (f vXdsParseFlt) IsTerminal() bool { return false }
+
+type vXdsParseFltCS struct{ vXdsParseFlt }
+type vXdsParseFltC struct{ vXdsParseFlt }
+type vXdsParseFltS struct{ vXdsParseFlt }
+
+func (vXdsParseFltCS) BuildClientFilter(httpfilter.ClientFilterOptions) httpfilter.ClientFilter { return nil }
+func (vXdsParseFltCS) BuildServerFilter() httpfilter.ServerFilter                              { return nil }
+func (vXdsParseFltC) BuildClientFilter(httpfilter.ClientFilterOptions) httpfilter.ClientFilter  { return nil }
+func (vXdsParseFltS) BuildServerFilter() httpfilter.ServerFilter                               { return nil }
+
+func vXdsParseFltBuilders() []httpfilter.Builder {
+	return []httpfilter.Builder{
+		vXdsParseFltCS{vXdsParseFlt{2}}, vXdsParseFltC{vXdsParseFlt{3}}, vXdsParseFltS{vXdsParseFlt{4}},
+		vXdsParseFltCS{vXdsParseFlt{6}},
+	}
+}
+
+func vXdsParseHTTPFilters(flts [][3]int64) []*v3httppb.HttpFilter {
+	var out []*v3httppb.HttpFilter
+	for _, f := range flts {
+		hf := &v3httppb.HttpFilter{IsOptional: f[1] != 0}
+		if id := uint32(f[2]); id != 0 {
+			hf.Name = "f" + strconv.FormatUint(uint64(id), 10)
+		}
+		switch f[0] {
+		case 1:
+			hf.ConfigType = &v3httppb.HttpFilter_TypedConfig{TypedConfig: e2e.RouterHTTPFilter.GetTypedConfig()}
+		case 0:
+		default:
+			hf.ConfigType = &v3httppb.HttpFilter_TypedConfig{TypedConfig: &anypb.Any{TypeUrl: vXdsParseFltURL(f[0])}}
+		}
+		out = append(out, hf)
+	}
+	return out
+}
+
+func vXdsParseBuildListener(named, server bool, flts [][3]int64) *v3listenerpb.Listener {
+	hfs := vXdsParseHTTPFilters(flts)
+	var lis *v3listenerpb.Listener
+	if !server {
+		hcm := &v3httppb.HttpConnectionManager{
+			RouteSpecifier: &v3httppb.HttpConnectionManager_Rds{Rds: &v3httppb.Rds{
+				ConfigSource:    &v3corepb.ConfigSource{ConfigSourceSpecifier: &v3corepb.ConfigSource_Ads{Ads: &v3corepb.AggregatedConfigSource{}}},
+				RouteConfigName: "rc",
+			}},
+			HttpFilters: hfs,
+		}
+		hb, _ := proto.Marshal(hcm)
+		lis = &v3listenerpb.Listener{Name: "lis", ApiListener: &v3listenerpb.ApiListener{
+			ApiListener: &anypb.Any{TypeUrl: version.V3HTTPConnManagerURL, Value: hb}}}
+	} else {
+		lis = e2e.DefaultServerListener("0.0.0.0", 9999, e2e.SecurityLevelNone, "rc")
+		if lis.GetDefaultFilterChain() == nil && len(lis.GetFilterChains()) > 0 {
+			dfc := &v3listenerpb.FilterChain{Name: "default"}
+			for _, nf := range lis.GetFilterChains()[0].GetFilters() {
+				dfc.Filters = append(dfc.Filters, proto.Clone(nf).(*v3listenerpb.Filter))
+			}
+			lis.DefaultFilterChain = dfc
+		}
+		fix := func(fc *v3listenerpb.FilterChain) {
+			for _, nf := range fc.GetFilters() {
+				tc := nf.GetTypedConfig()
+				hcm := &v3httppb.HttpConnectionManager{}
+				if tc == nil || tc.GetTypeUrl() != version.V3HTTPConnManagerURL || proto.Unmarshal(tc.GetValue(), hcm) != nil {
+					continue
+				}
+				hcm.HttpFilters = hfs
+				hb, _ := proto.Marshal(hcm)
+				nf.ConfigType = &v3listenerpb.Filter_TypedConfig{TypedConfig: &anypb.Any{TypeUrl: version.V3HTTPConnManagerURL, Value: hb}}
+			}
+		}
+		for _, fc := range lis.GetFilterChains() {
+			fix(fc)
+		}
+		if lis.GetDefaultFilterChain() != nil {
+			fix(lis.GetDefaultFilterChain())
+		}
+	}
+	if !named {
+		lis.Name = ""
+	}
+	return lis
+}
+
+func vXdsParseProjectLDS(u ListenerUpdate, server bool) [][]int64 {
+	var fs []HTTPFilter
+	switch {
+	case !server && u.APIListener != nil:
+		fs = u.APIListener.HTTPFilters
+	case server && u.TCPListener != nil && u.TCPListener.DefaultFilterChain.HTTPConnMgr != nil:
+		fs = u.TCPListener.DefaultFilterChain.HTTPConnMgr.HTTPFilters
+	default:
+		return [][]int64{{7, -1, 0, -1}} // wrong kind of update: never matches the model
+	}
+	var out [][]int64
+	for _, f := range fs {
+		kind := int64(0)
+		switch b := f.Filter.(type) {
+		case vXdsParseFltCS:
+			kind = b.kind
+		case vXdsParseFltC:
+			kind = b.kind
+		case vXdsParseFltS:
+			kind = b.kind
+		default:
+			if f.Filter != nil && f.Filter.IsTerminal() {
+				kind = 1
+			}
+		}
+		id := int64(-1)
+		if strings.HasPrefix(f.Name, "f") {
+			if v, err := strconv.ParseUint(f.Name[1:], 10, 32); err == nil {
+				id = int64(v)
+			}
+		}
+		out = append(out, []int64{7, kind, 0, id})
+	}
+	return out
+}
+
+func vXdsParseLDS(named, server bool, p *vXdsParsePend) (obs [][]int64, ok bool) {
+	sv := vB(server)
+	b, err := proto.Marshal(vXdsParseBuildListener(named, server, p.flts))
+	if err != nil {
+		return [][]int64{{11, 0, sv}}, false
+	}
+	var proj [2][][]int64
+	var oks [2]bool
+	panicked := false
+	for k := 0; k < 2; k++ {
+		k := k
+		if vXdsParseCall(func() {
+			a := &anypb.Any{TypeUrl: version.V3ListenerURL, Value: b}
+			_, u, err := unmarshalListenerResource(a, nil, nil)
+			oks[k] = err == nil
+			if err == nil {
+				proj[k] = vXdsParseProjectLDS(u, server)
+			}
+		}) {
+			panicked = true
+		}
+	}
+	if panicked {
+		// a panic is reported as the answer of a raw request: it cannot line up with the
+		// Listener request, so clause 1 (no panic) fails
+		return [][]int64{{20, 1, 1, 1}}, false
+	}
+	if oks[0] != oks[1] || !reflect.DeepEqual(proj[0], proj[1]) {
+		return [][]int64{{11, 2, sv}}, false
+	}
+	if !oks[0] {
+		return [][]int64{{11, 0, sv}}, false
+	}
+	return append(proj[0], []int64{11, 1, sv}), true
 }
 
 func vXdsParseSock(a uint32) *v3corepb.Address {
@@ -585,6 +766,10 @@ func vXdsParseExec(cfg []int64, ops [][]int64) ([][]int64, bool, []string) {
 	defer func() { envconfig.XDSDualstackEndpointsEnabled = oldDual }()
 	clusterspecifier.Register(vXdsParseCSP{})
 	defer clusterspecifier.UnregisterForTesting(vXdsParseCSPType)
+	for _, fb := range vXdsParseFltBuilders() {
+		httpfilter.Register(fb)
+		defer httpfilter.UnregisterForTesting(fb.TypeURLs()[0])
+	}
 
 	var obs [][]int64
 	var tags []string
@@ -619,6 +804,18 @@ func vXdsParseExec(cfg []int64, ops [][]int64) ([][]int64, bool, []string) {
 			if n := len(p.routes); n > 0 {
 				p.routes[n-1].wcs = append(p.routes[n-1].wcs, uint32(op[1]))
 			}
+		case op[0] == 7 && len(op) == 4:
+			p.flts = append(p.flts, [3]int64{op[1], op[2], op[3]})
+		case op[0] == 11 && len(op) == 3:
+			o, ok := vXdsParseLDS(op[1] != 0, op[2] != 0, p)
+			obs = append(obs, o...)
+			if ok {
+				tags = append(tags, "lds_accept")
+				nt = true
+			} else {
+				tags = append(tags, "lds_reject")
+			}
+			p = &vXdsParsePend{}
 		case op[0] == 9 && len(op) == 2:
 			o, ok := vXdsParseEDS(op[1] != 0, p)
 			obs = append(obs, o...)
@@ -799,6 +996,38 @@ func vXdsParseGenRDS(r *vRand, ops [][]int64, valid bool) [][]int64 {
 		named = 0
 	}
 	return append(ops, []int64{10, named})
+}
+
+func vXdsParseGenLDS(r *vRand, ops [][]int64, valid bool) [][]int64 {
+	n := r.Intn(4)
+	name := int64(1 + r.Intn(3))
+	for i := 0; i < n; i++ {
+		kind := r.PickI64(2, 2, 3, 4, 5)
+		opt := vB(r.Chance(40))
+		if i == n-1 && r.Chance(80) {
+			kind = 1
+		}
+		if !valid {
+			switch r.Intn(6) {
+			case 0:
+				kind = r.PickI64(0, 1, 5, 6, 7)
+			case 1:
+				opt = 1
+				kind = r.PickI64(0, 5, 7)
+			}
+		}
+		name++
+		nm := name
+		if !valid && r.Chance(10) {
+			nm = r.PickI64(0, name-1, 1<<32)
+		}
+		ops = append(ops, []int64{7, kind, opt, nm})
+	}
+	named := int64(1)
+	if !valid && r.Chance(5) {
+		named = 0
+	}
+	return append(ops, []int64{11, named, vB(r.Chance(40))})
 }
 
 func vXdsParseBaseBytes(r *vRand, rtype int) []byte {
@@ -1002,17 +1231,48 @@ func vXdsParseGen(r *vRand, tier string, idx int) ([]int64, [][]int64) {
 		ops = append(ops, []int64{4, 0, 1, 0, 1, 0, 0, 0, 0, 3, 0}, []int64{10, 1})
 		ops = append(ops, []int64{4, 0, 1, 0, 1, 0, 1, 429497, 0, 1, 1}, []int64{10, 1})
 		ops = append(ops, []int64{4, 0, 1, 0, 1, 0, 1, 42949673, 1, 1, 1}, []int64{10, 1})
+	case 5:
+		// LDS http_filters: every list of length <= 2 over kind x optional, client and server;
+		// lists in which every entry is optional and unregistered; names empty / duplicated
+		kinds := []int64{1, 2, 3, 4, 5, 6}
+		for sv := int64(0); sv <= 1; sv++ {
+			ops = append(ops, []int64{11, 1, sv})
+			for _, k1 := range kinds {
+				for o1 := int64(0); o1 <= 1; o1++ {
+					ops = append(ops, []int64{7, k1, o1, 1}, []int64{11, 1, sv})
+					for _, k2 := range kinds {
+						for o2 := int64(0); o2 <= 1; o2++ {
+							ops = append(ops, []int64{7, k1, o1, 1}, []int64{7, k2, o2, 2}, []int64{11, 1, sv})
+						}
+					}
+				}
+			}
+			for n := 1; n <= 3; n++ {
+				for i := 0; i < n; i++ {
+					ops = append(ops, []int64{7, []int64{5, 0, 9}[i], 1, int64(i + 1)})
+				}
+				ops = append(ops, []int64{11, 1, sv})
+			}
+			ops = append(ops, []int64{7, 3 + sv, 1, 1}, []int64{7, 5, 1, 2}, []int64{11, 1, sv}) // skipped for the side + unknown
+			ops = append(ops, []int64{7, 2, 0, 1}, []int64{7, 1, 0, 1}, []int64{11, 1, sv})       // duplicate name
+			ops = append(ops, []int64{7, 5, 1, 1}, []int64{7, 1, 0, 1}, []int64{11, 1, sv})       // duplicate of a skipped name
+			ops = append(ops, []int64{7, 1, 0, 0}, []int64{11, 1, sv})                             // empty name
+			ops = append(ops, []int64{7, 2, 0, 1}, []int64{7, 2, 0, 2}, []int64{7, 1, 0, 3}, []int64{11, 1, sv})
+			ops = append(ops, []int64{7, 1, 0, 1}, []int64{11, 0, sv}) // empty listener name
+		}
 	default:
 		if idx%7 == 0 {
 			cfg = []int64{0}
 		}
 		n := 6 + r.Intn(8)
 		for i := 0; i < n; i++ {
-			switch r.Intn(5) {
+			switch r.Intn(6) {
 			case 0, 1:
 				ops = vXdsParseGenEDS(r, ops, r.Chance(60))
 			case 2, 3:
 				ops = vXdsParseGenRDS(r, ops, r.Chance(60))
+			case 4:
+				ops = vXdsParseGenLDS(r, ops, r.Chance(60))
 			default:
 				ops = vXdsParseGenRaw(r, ops)
 			}
